@@ -460,8 +460,16 @@ func main() {
 	// Large-size families: the same splice model at lengths around every power of two up to
 	// 1025 (append growth, memmove and exponential-copy thresholds), a few positions each.
 	fam := 0
-	for _, n := range []int{15, 16, 17, 31, 32, 33, 63, 64, 65, 127, 128, 129, 255, 256, 257, 511, 512, 513, 1000, 1023, 1024, 1025} {
-		for _, sp := range []int{0, 1, n / 2, n} {
+	famSizes := []int{15, 16, 17, 31, 32, 33, 63, 64, 65, 127, 128, 129, 255, 256, 257, 511, 512, 513, 1000, 1023, 1024, 1025}
+	// ... and a few lengths in the millions that are NOT round (work split into chunks or across goroutines
+	// above a size, with a remainder that is forgotten)
+	famSizes = append(famSizes, ev.Pick(r, []int{65536 + 3, 1<<20 + 7, 1<<21 + 2}, []int{65536 + 3, 1<<20 + 7, 1<<21 + 2, 3000001, 1<<22 + 13, 1<<24 + 6})...)
+	for _, n := range famSizes {
+		spares := []int{0, 1, n / 2, n}
+		if n > 70000 {
+			spares = []int{0, 5}
+		}
+		for _, sp := range spares {
 			check := func(fn string, got, want []int, rp map[string]any) {
 				e.Call()
 				fam++
@@ -534,7 +542,7 @@ func main() {
 		}
 	}
 	r.Set("large_size_family_calls", fam)
-	e.Finish(fmt.Sprintf("every length 0..%d x spare capacity %v (hidden region pre-filled with garbage) x every valid index / inserted length 0..%d / removal length; Fill/Repeat every length; Concat every length pair incl. nil; position-tagged elements; the same model over 10 element types (floats and complex numbers with negative zero and NaN compared by bit pattern, structs holding them, a type whose IsZero method lies, pointers, strings, interfaces, time.Time) at lengths 0..5; plus large-size families at lengths around every power of two up to 1025; non-trivial = the call moves or writes at least one element next to others", maxLen, spares, maxIns))
+	e.Finish(fmt.Sprintf("every length 0..%d x spare capacity %v (hidden region pre-filled with garbage) x every valid index / inserted length 0..%d / removal length; Fill/Repeat every length; Concat every length pair incl. nil; position-tagged elements; the same model over 10 element types (floats and complex numbers with negative zero and NaN compared by bit pattern, structs holding them, a type whose IsZero method lies, pointers, strings, interfaces, time.Time) at lengths 0..5; plus large-size families at lengths around every power of two up to 1025 and at a few odd lengths in the millions; non-trivial = the call moves or writes at least one element next to others", maxLen, spares, maxIns))
 }
 
 func head(s []int) []int {
